@@ -268,8 +268,12 @@ def main(argv=None):
         print("REPLAY property=%s key=%s no longer fails on the current tree" % (pid, want.get("key")))
         return 0
 
+    printed = set()
     for o in hit_known:
         k = findings[o.key]
+        if o.key in printed:      # the same construct seen again in another build configuration (thorough tier)
+            continue
+        printed.add(o.key)
         print("KNOWN-FINDING: property=%s %s [%s in %s] %s" % (pid, k.get("id", ""), o.rule, o.fn, k.get("what", o.found)))
     n = 0
     for o in viol:
